@@ -114,6 +114,24 @@ Theorem C17_latest_monotone : forall ups c,
 Proof. exact chan_trace_monotone. Qed.
 Print Assumptions C17_latest_monotone.
 
+(** C17_sound_mpd, the part that is proved (named _partial): whenever generateSegmentTimelineNrMPD writes
+    an MPD for [first,last], (1) every number of the range has a live counter whose count is at least
+    _nrTracks, and (2) for every adaptation set, its first representation has a stored item for every
+    number of the range (in order, [items_at]), the durations listed by the S elements are those
+    items' durations, and the start times are the first item's time plus the durations before - i.e.
+    every item's own time when the items follow each other without a gap in time.
+    MISSING for the full statement (every track, not only the first representation of each adaptation
+    set, has the listed items): the invariant that a counter's count is at most the number of track
+    buffers that hold the number (window reasoning between seqCounters and the per-track buffers).
+    It is false on this tree when a track delivers its first segment after the start
+    (C17_late_track_refuted); for runs without a late track it is checked by the oracle on every run. *)
+Theorem C17_sound_mpd_partial : forall g nl asets g' pub,
+  gen_inv g -> gen_generate g nl asets = Ok (g', Some pub) ->
+  (forall n, p_first pub <= n <= p_last pub -> exists c, In (n, c) (sc_live (g_cnt g)) /\ g_ntracks g <= c) /\
+  Forall2 (aset_sound g (p_first pub) (p_last pub)) asets (p_tl pub).
+Proof. exact gen_generate_sound. Qed.
+Print Assumptions C17_sound_mpd_partial.
+
 (** window bounds are part of the invariant: 0 <= _nrCounters <= windowSize = len(counters),
     0 <= _nrItems <= size = len(items) = the generator's window, for every track *)
 Theorem C17_window : forall c,
